@@ -70,10 +70,18 @@ Definition write_dir_entry (id : N) : M unit :=
   do _ <- chain_write_all c (dirent_encode e);
   ret tt.
 
-Definition with_dir_entry_mut (id : N) (f : dirent -> dirent) : M unit :=
+Definition with_dir_entry_mut_inner (id : N) (f : dirent -> dirent) : M unit :=
   do e <- dir_entry id;
   set_dir_entry id (f e) ;;
   write_dir_entry id.
+
+(* when the entry cannot be written the in-memory copy is put back (only entry [id] was
+   changed in memory, so this is the table the call started with) *)
+Definition with_dir_entry_mut (id : N) (f : dirent -> dirent) : M unit := fun s =>
+  match with_dir_entry_mut_inner id f s with
+  | (s', Ok u) => (s', Ok u)
+  | (s', r) => (w_dirs s' (dirs s), r)
+  end.
 
 (* count_directory_sectors / update_num_dir_sectors *)
 Fixpoint count_dir_go (fuel : nat) (fat : list N) (n : N) (sid : N) : res N :=
